@@ -58,7 +58,8 @@ CHECKS = {
  "C13": dict(
     text="Cli.tla specifies the vector syntax (Expand with end-point / step / calendar-day lemmas), the option grammar as "
          "Meaning(set of groups, files) and the two-pass argument loop with --config splicing; TLC checks that the loop refines Meaning "
-         "for every order of up to 2 (quick) / 3 (thorough) option groups, every file position and every command-line/config split, and "
+         "for every order of up to 2 (quick) / 3 (thorough) option groups (selection, computation, -c/-C, -T/-Tagg/-Tx, malformed ones), every "
+         "file position and every split over one or two config files, and "
          "computes -- through Dataset.tla, Scoring.tla and Report.tla -- the table each well-formed option set must print or the "
          "rejection each malformed one must get; every emitted argv variant is run through verif.driver.run (exit status, error "
          "message, table, identical output across orders and splits) and every vector string through util.parse_numbers.",
@@ -104,7 +105,7 @@ CHECKS = {
     technique="TLA+ spec (NcFormat.tla + TextFormat.tla) model-checked with TLC; generated text/NetCDF file pairs read by verif.input and text2nc output compared with the spec's Input",
     ref="6/C10"),
  "C05": dict(
-    text="Metrics.tla transcribes the textbook definition of 22 deterministic scores (and Aggregators.tla the 14 -agg statistics plus "
+    text="Metrics.tla transcribes the textbook definition of 22 deterministic scores and of `within` (and Aggregators.tla the 14 -agg statistics plus "
          "quantile levels) as expression trees over exact rationals, with explicit undefined cases; TLC enumerates every obs/fcst vector "
          "of length 0..3 over small integers (ties, constants, zeros, negatives, single pairs, missing on either side; length 4 and the "
          "5-value alphabet in the thorough tier), checks PerfectAttains / NeverBetter / AggregatorConsistency exactly, and each expected "
@@ -124,23 +125,26 @@ CHECKS = {
          "order lemmas, and the -T trailing window (g-h, g] by grid value with window lemmas; TLC enumerates vectors with ties and missing "
          "values, 3-d arrays along every dimension, and every lead-time grid drawn from {0,1,2,3,5,8} in increasing and permuted file order "
          "x window length x aggregator; replayed into verif.aggregator.get(name)(array, axis), preaggregate_leadtime / preaggregate_time "
-         "and, end to end, Data(dim_agg_length=..) for observations and forecasts alike.",
-    technique="TLA+ spec (Aggregators.tla) model-checked with TLC; enumerated vectors/arrays/grids replayed into verif.aggregator and verif.data pre-aggregation",
+         "and, end to end, Data(dim_agg_length=..) for observations and forecasts alike; Dataset!PreAggAt composes -T with selection, "
+         "intersection and fair comparison on multi-input datasets with different, unsorted grids (family C15T).",
+    technique="TLA+ specs (Aggregators.tla; Dataset.tla with -T) model-checked with TLC; enumerated vectors/arrays/grids replayed into verif.aggregator and verif.data pre-aggregation",
     ref="6/C15"),
  "C16": dict(
     text="Diagrams.tla defines, per diagram, the series of points it must draw as functions of the common valid cases of Dataset.tla "
          "(standard line and bar plots, obsfcst, qq, scatter, against, sort, hist, freq, error, performance, and the probabilistic "
-         "diagrams of the second tranche), one series per input in command-line order, with the every-value-in-one-bin lemma for binned "
-         "diagrams checked by TLC; every (dataset, diagram, option variant) is run through verif.driver.run with the Agg backend and "
-         "the Line2D / bar artists of the figure are projected (label, x data, y data): each expected series must be drawn under the "
-         "right label and in input order. Diagrams not yet transcribed are listed in the evidence of every run.",
+         "diagrams reliability, discrimination, roc, marginal, pithist; droc, droc0, change, autocov, autocorr, taylor, fss, murphy, "
+         "economicvalue, bsdecomp, igncontrib, invreliability, spreadskill, meteo; the map and impact views), one series per input in "
+         "command-line order, with the every-value-in-one-bin lemma for binned diagrams checked by TLC; every (dataset, diagram, option variant) is run through verif.driver.run with the Agg backend and "
+         "the Line2D / bar / scatter artists of the figure are projected (label, x data, y data): each expected series must be drawn under the "
+         "right label and in input order. The rank / maprank / mapimpact views are not transcribed (see the evidence of every run).",
     technique="TLA+ spec (Diagrams.tla over Scoring/Dataset/Metrics) evaluated by TLC; expected series compared with the artists of the matplotlib figure produced by verif.driver.run",
     note="Geometric decorations, cartopy maps and pixel output are not specified. ",
     ref="6/C16"),
  "C17": dict(
     text="Figure.tla gives every documented appearance option one owned figure property (with the value it must read for each of two "
          "argument values), the few properties it may legitimately disturb, and the Independent lemma; TLC enumerates every consistent "
-         "set of up to 2 options (2 318 cases) on a standard plot and single options on pithist / reliability; the matplotlib figure "
+         "set of up to 2 options on a standard plot and single options on pithist / reliability / obsfcst / the map view (-clabel, -clim, -cmap); "
+         "a derived property says whether the image is the whole figure or cropped (explicit margins, 0 included); the matplotlib figure "
          "left by verif.driver.run and the written image are projected into the abstract properties: owned ones must carry the option's "
          "value, all properties no given option controls must equal the option-free baseline figure; image formats by extension.",
     technique="TLA+ spec (Figure.tla) enumerated by TLC; option sets run through verif.driver.run and the resulting matplotlib figure projected and compared",
@@ -149,17 +153,18 @@ CHECKS = {
     text="DataImpl.tla models Data.get_scores as the code has it (heap of mutable arrays, per-input field cache handed out without "
          "copying, request cache, observation sharing by aliasing, in-place propagation and -obsrange); TLC checks that it refines "
          "Dataset.tla (HistoryIndependent, EarlierUnaltered, CacheCoherent, CacheGrows) over every request sequence up to length 3 of a "
-         "36-request menu. Spec->code: maximal behaviours are replayed on one real Data object (results vs the history-free "
+         "36-request menu and, under a canonical view that forgets object ids, in EVERY cache state reachable by histories of any length "
+         "over a 12-request core menu (datasets x 2^12 states). Spec->code: maximal behaviours are replayed on one real Data object (results vs the history-free "
          "expectation, all earlier arrays vs their snapshots, Input arrays unchanged). Code->spec: hook traces of those executions are "
-         "validated by TLC against the model (Trace_DataImpl), internal disagreement being MODEL-DRIFT only.",
-    technique="TLA+ refinement DataImpl => Dataset checked by TLC over all request histories; behaviours replayed into verif.data.Data; hook traces validated by TLC",
+         "and of random request sequences are validated by TLC against the model (Trace_DataImpl), internal disagreement being MODEL-DRIFT only.",
+    technique="TLA+ refinement DataImpl => Dataset checked by TLC over all request histories (bounded: every sequence; unbounded: every reachable cache state under a canonical view); behaviours replayed into verif.data.Data; hook traces validated by TLC",
     ref="6/C18"),
  "C19": dict(
     text="Combos.tla lists the documented names (70 metrics, 28 diagrams, 19 -x dimensions + default, 8 output types), the option variants "
-         "(-agg, -b, -r, -q, -acc, -hist, -sort, -T) and the driver's gate model as a prediction; TLC enumerates the full cross product "
-         "(15 680 combinations) and 3 480 variants; each is run through verif.driver.run with a real savefig under a time limit on "
+         "(-agg, -b, -r, -q, -acc, -hist, -sort, -T; -q bin edges on every diagram; on plot, csv and impact output) and the driver's gate "
+         "model as a prediction; TLC enumerates the full cross product (15 680 combinations) and 6 060 variants; each is run through verif.driver.run with a real savefig under a time limit on "
          "generated datasets (all column kinds; single time; single location; an all-missing slice): outcome must be an output or an "
-         "error exit with a message. Quick: a 3 000-run sample on two datasets; thorough: everything on four datasets.",
+         "error exit with a message. Quick: a 4 400-run sample (variants stratified by kind and output type) on two datasets; thorough: everything on four datasets.",
     technique="TLA+ spec (Combos.tla) enumerated exhaustively by TLC; every enumerated command line run through verif.driver.run and classified",
     ref="6/C19"),
  "C20": dict(
